@@ -1856,6 +1856,8 @@ def _object_of(c):
         return "feat:temp"
     if kind == "retype":
         return "key:" + p["key"]
+    if kind == "unknown":
+        return "unknownfeat:" + p["name"]
     if kind == "trace_rank":
         return "trace:" + p["t"]
     if kind == "extlink_nested":
